@@ -24,6 +24,7 @@ class Rec:
         self.algo = scn["cfg"]["algo"]
         self.tick = -1
         self.pipes = []          # real pipelines in arrival order
+        self.open = []
         self.pkey = {}           # pipeline_id -> index in arrival order
         self.arrival = {}        # pipeline_id -> (tick, order)
         self.parents0 = {}       # id(op) -> ids of its parents when the pipeline arrived
@@ -35,6 +36,7 @@ class Rec:
         self.log = EventLog()
         self.canon = []          # canonical tick-by-tick log (C07)
         self.cids = {}
+        self.cid_count = {}
         self.acct = {"accepted": 0, "ok": 0, "fail": 0}
         self.n_sus = 0
         self.oracles = []        # objects with on_round / on_tick / on_end
@@ -51,15 +53,24 @@ class Rec:
     def probe(self, k, n=1):
         self.probes[k] = self.probes.get(k, 0) + n
 
+    def open_pipes(self):
+        """(arrival index, pipeline) of every pipeline the simulator has not recorded as finished - the per-tick
+        checks look at these only, so long runs with 100 000 pipelines stay linear"""
+        self.open = [(k, p) for k, p in self.open if p.runtime_status().finish_tick is None]
+        return self.open
+
     def cid(self, kind, x):
         k = (kind, x)
         if k not in self.cids:
-            self.cids[k] = "%s%d" % (kind, sum(1 for q in self.cids if q[0] == kind))
+            n = self.cid_count.get(kind, 0)
+            self.cid_count[kind] = n + 1
+            self.cids[k] = "%s%d" % (kind, n)
         return self.cids[k]
 
     def note_arrivals(self, pipelines):
         for p in pipelines:
             self.pkey[p.pipeline_id] = len(self.pipes)
+            self.open.append((len(self.pipes), p))
             self.pipes.append(p)
             self.arrival[p.pipeline_id] = (self.tick, len(self.pipes))
             self.arr_tick[id(p)] = self.tick
@@ -80,6 +91,9 @@ class Rec:
 # ---------------------------------------------------------------------------
 # seam 1: workload
 # ---------------------------------------------------------------------------
+SEGMENT_CACHE = {}      # (baseline, law, memory, read) -> Segment object shared between simulations (scn["share_segments"])
+
+
 def make_scn_workload(scn, rec):
     import_repo()
     from eudoxia.workload.workload import Workload
@@ -101,9 +115,20 @@ def make_scn_workload(scn, rec):
                 pid = pd.get("id", "p%d" % k)
                 if scn.get("reuse_ids") and self.rr.random() < 0.4:
                     # a recurring job: the id of a pipeline of the same priority that has already finished
-                    done = [q.pipeline_id for q in rec.pipes if q.priority.name == pd["prio"]
-                            and q.runtime_status().finish_tick is not None
-                            and not any(x.pipeline_id == q.pipeline_id and x.runtime_status().finish_tick is None for x in rec.pipes)]
+                    # (gap 1: may come back in the very tick after its predecessor finished; gap 2: only after the
+                    # scheduler has been handed the predecessor's last result - see DESIGN 0.3 on recurring ids)
+                    gap = scn.get("reuse_gap", 1)
+                    lastfin = {}
+                    for q in rec.pipes:
+                        ft_ = q.runtime_status().finish_tick
+                        lastfin[q.pipeline_id] = None if (ft_ is None or lastfin.get(q.pipeline_id, 0) is None) \
+                            else max(ft_, lastfin.get(q.pipeline_id, 0))
+                    done = []
+                    for q in rec.pipes:
+                        lf = lastfin[q.pipeline_id]
+                        if lf is not None and lf <= self.t - gap and q.pipeline_id not in done \
+                                and (q.priority.name == pd["prio"] or scn.get("reuse_any_class")):
+                            done.append(q.pipeline_id)
                     done = [x for x in done if x not in [q.pipeline_id for q in out]]     # not twice within one tick
                     if done:
                         pid = self.rr.choice(done)
@@ -127,6 +152,17 @@ def make_scn_workload(scn, rec):
                     for (b, law, mem, read) in od["segs"]:
                         if od.get("law_as_callable"):
                             law = Segment.SCALING_FUNCS[law]      # the public API also takes the law's function
+                        if scn.get("share_segments"):
+                            # segment prototypes kept by the caller and used for the pipelines of several simulations
+                            ck = (b, str(law), mem, read)
+                            if ck not in SEGMENT_CACHE:
+                                SEGMENT_CACHE[ck] = Segment(baseline_cpu_seconds=float(b), cpu_scaling=law,
+                                                            memory_gb=None if mem is None else float(mem),
+                                                            storage_read_gb=float(read))
+                            else:
+                                rec.probe("segment_object_from_earlier_simulation")
+                            op.add_segment(SEGMENT_CACHE[ck])
+                            continue
                         op.add_segment(Segment(baseline_cpu_seconds=float(b), cpu_scaling=law,
                                                memory_gb=None if mem is None else float(mem),
                                                storage_read_gb=float(read)))
@@ -174,6 +210,15 @@ def ready_ops(p, states):
     return [o for o, s in st.items() if s.value in states and all(st[q] == S.COMPLETED for q in tp.get(id(o), o.parents))]
 
 
+class _Default(dict):
+    def __init__(self, factory, data):
+        super().__init__(data)
+        self.factory = factory
+
+    def __missing__(self, key):
+        return self.factory()
+
+
 def ensure_wrapper(algo):
     import_repo()
     key = "verif:" + algo
@@ -197,8 +242,9 @@ def ensure_wrapper(algo):
             R.emitted.append([p.pipeline_id for p in pipelines])
         rd = {"tick": R.tick, "results": list(results), "new": list(pipelines)}
         rd["pre"] = [(pl.avail_cpu_pool, pl.avail_ram_pool) for pl in ex.pools]
-        rd["pre_failed"] = {p.pipeline_id: p.runtime_status().state_counts[S.FAILED] for p in R.pipes}
-        rd["pre_ready"] = {p.pipeline_id: set(id(o) for o in ready_ops(p, ("pending", "failed"))) for p in R.pipes}
+        # (finished pipelines have no failed and no ready operators: the defaults stand for them)
+        rd["pre_failed"] = _Default(int, {p.pipeline_id: p.runtime_status().state_counts[S.FAILED] for _, p in R.open_pipes()})
+        rd["pre_ready"] = _Default(set, {p.pipeline_id: set(id(o) for o in ready_ops(p, ("pending", "failed"))) for _, p in R.open})
         rd["cansusp"] = {c.container_id: (c.can_suspend_container(), c.priority, pl.pool_id)
                          for pl in ex.pools for c in pl.active_containers}
         sus, asg = SCHEDULING_ALGOS[algo](s, results, pipelines)
@@ -322,10 +368,8 @@ def _sys_tick_checks(R, ex, t):
                     raise Violation("C02.live_state", {"op": R.okey(o), "state": o.state().value, "container": c.container_id}, t)
     if R.declared_differs is not None:
         raise Violation("C01.parents_changed", dict(R.declared_differs, when="on arrival"), t)
-    for k, p in enumerate(R.pipes):
+    for k, p in R.open_pipes():
         rs = p.runtime_status()
-        if rs.finish_tick is not None:
-            continue
         if (k + t) % 4 == 0:
             seen_ops = []
             for o in p.values:
